@@ -18,7 +18,7 @@ Why the existing tests cannot settle it: {d['why_tests_cant']}
 Code anchors: {json.dumps(d['anchors'].get('mechanism', []), indent=1)}
 
 Task: make a small, realistic change to the library source under {wt}/flox (the kind of bug a developer could plausibly introduce in a refactor or an "optimisation") such that
- 1. the package still imports and the existing test-suite still passes exactly as before: run `cd {wt} && PYTHONPATH={wt} /venv/bin/python -m pytest -q -p no:cacheprovider -x -n 6 tests/test_core.py tests/test_properties.py tests/test_xarray.py --timeout=900 -q 2>&1 | tail -15` BEFORE and AFTER your change (the baseline already has some failures: mode/nanmode, datetime binning `test_group_by_datetime`/`test_datetime_binning`, `test_multiple_quantiles` chunked, cohorts snapshot tests — the set of failing tests must be the same before and after; drop `-x` to see them all; a full run takes several minutes);
+ 1. the package still imports and the existing test-suite still passes exactly as before. The machine is shared and heavily loaded, so ALWAYS prefix test/python commands with `OMP_NUM_THREADS=1 OPENBLAS_NUM_THREADS=1 MKL_NUM_THREADS=1 NUMBA_NUM_THREADS=1` and never use more than `-n 3`. The baseline on the unchanged tree is already known: `tests/test_core.py` gives 129 failed / 8350 passed (mode/nanmode cases of test_groupby_reduce_all and test_cohorts_nd_by, test_dtype, test_group_by_datetime, test_datetime_binning), `tests/test_xarray.py` 6 failed (test_multiple_quantiles) / 293 passed, `tests/test_properties.py` 7 passed — you do NOT need to re-run the baseline. AFTER your change run `cd {wt} && OMP_NUM_THREADS=1 OPENBLAS_NUM_THREADS=1 MKL_NUM_THREADS=1 NUMBA_NUM_THREADS=1 PYTHONPATH={wt} /venv/bin/python -m pytest -q -p no:cacheprovider -n 3 tests/test_core.py tests/test_xarray.py tests/test_properties.py --timeout=900 -p no:warnings -rf 2>&1 | tail -40` once (it takes 10-20 minutes) and check that the counts and the kinds of failing tests are the same as the baseline above; if your change is caught, pick another change;
  2. the property above is violated for SOME inputs — and the violation needs something specific to manifest (an unusual input such as negative data / NaN placement / ties across chunk boundaries / particular chunk layouts / deep reduction trees with many blocks / particular label patterns / multi-step sequence / two cooperating sites that each look fine alone), NOT something that ordinary use would expose at once;
  3. you write a demonstration script `{wt}/demo.py` (plain Python, no pytest needed) that exits 0 and prints PASS when run against the ORIGINAL code and exits 1 and prints FAIL (with the offending input and outputs) when run against your changed code. It should check the property against an independent reference (NumPy per-group computation / eager result / etc.), not against hard-coded numbers only.
 
